@@ -513,7 +513,8 @@ namespace foonathan
             static void* try_allocate_node(allocator_type& state, std::size_t size,
                                            std::size_t alignment) noexcept
             {
-                if (alignment > traits::max_alignment(state))
+                // the nodes of a pool are only aligned for their size, like in allocate_node()
+                if (alignment > detail::alignment_for(size))
                     return nullptr;
                 return state.try_allocate_node(size);
             }
@@ -524,7 +525,7 @@ namespace foonathan
                                             std::size_t size, std::size_t alignment) noexcept
             {
                 if (count * size > traits::max_array_size(state)
-                    || alignment > traits::max_alignment(state))
+                    || alignment > detail::alignment_for(size))
                     return nullptr;
                 return state.try_allocate_array(count, size);
             }
